@@ -147,7 +147,7 @@ func (m *mcpModel) readTable(fn *ssa.Function) *mcpTable {
 	}
 	sw, tag := m.nameSwitch(fd, pv)
 	if sw == nil {
-		return nil
+		return m.readMapTable(fn, fd, pv)
 	}
 	t := &mcpTable{fn: fn, tag: tag, trueSet: map[string]bool{}, roles: map[string]string{}, pos: fd.Pos()}
 	t.obj, _ = fn.Object().(*types.Func)
@@ -174,6 +174,139 @@ func (m *mcpModel) readTable(fn *ssa.Function) *mcpTable {
 				if id, ok := rs.Results[1].(*ast.Ident); ok && id.Name == "true" {
 					t.roles[lit] = types.ExprString(rs.Results[0])
 				}
+			}
+		}
+	}
+	return t
+}
+
+// readMapTable: the same table written as a package-level map literal of records, the function returning one field
+// of the record filed under (a normal form of) its parameter: rows are the literal's keys, the column is the field.
+func (m *mcpModel) readMapTable(fn *ssa.Function, fd *ast.FuncDecl, pv *types.Var) *mcpTable {
+	// the index expression G[key] over a package-level map variable, key mentioning the parameter
+	var idx *ast.IndexExpr
+	var gv *types.Var
+	ast.Inspect(fd.Body, func(n ast.Node) bool {
+		ix, ok := n.(*ast.IndexExpr)
+		if !ok {
+			return true
+		}
+		id, ok := ast.Unparen(ix.X).(*ast.Ident)
+		if !ok {
+			return true
+		}
+		v, ok := m.info.Uses[id].(*types.Var)
+		if !ok || v.Parent() != m.pkg.Types.Scope() {
+			return true
+		}
+		if _, isMap := v.Type().Underlying().(*types.Map); !isMap {
+			return true
+		}
+		mentions := false
+		ast.Inspect(ix.Index, func(k ast.Node) bool {
+			if kid, ok := k.(*ast.Ident); ok && m.info.Uses[kid] == pv {
+				mentions = true
+			}
+			return true
+		})
+		if mentions {
+			idx, gv = ix, v
+		}
+		return true
+	})
+	if idx == nil {
+		return nil
+	}
+	// the field of the record that is returned (first result)
+	field := ""
+	ast.Inspect(fd.Body, func(n ast.Node) bool {
+		rs, ok := n.(*ast.ReturnStmt)
+		if !ok || len(rs.Results) == 0 {
+			return true
+		}
+		if se, ok := ast.Unparen(rs.Results[0]).(*ast.SelectorExpr); ok {
+			if sel := m.info.Selections[se]; sel != nil && sel.Kind() == types.FieldVal {
+				field = se.Sel.Name
+			}
+		}
+		return true
+	})
+	if field == "" {
+		return nil
+	}
+	// the literal the variable is declared with; it must never be written elsewhere in the package
+	var lit *ast.CompositeLit
+	written := false
+	for _, f := range m.pkg.Syntax {
+		ast.Inspect(f, func(n ast.Node) bool {
+			switch x := n.(type) {
+			case *ast.ValueSpec:
+				for i, nm := range x.Names {
+					if m.info.Defs[nm] == gv && i < len(x.Values) {
+						lit, _ = ast.Unparen(x.Values[i]).(*ast.CompositeLit)
+					}
+				}
+			case *ast.AssignStmt:
+				for _, l := range x.Lhs {
+					e := ast.Unparen(l)
+					if ix, ok := e.(*ast.IndexExpr); ok {
+						e = ast.Unparen(ix.X)
+					}
+					if id, ok := e.(*ast.Ident); ok && m.info.Uses[id] == gv {
+						written = true
+					}
+				}
+			case *ast.CallExpr:
+				if id, ok := x.Fun.(*ast.Ident); ok && (id.Name == "delete" || id.Name == "clear") && len(x.Args) > 0 {
+					if aid, ok := ast.Unparen(x.Args[0]).(*ast.Ident); ok && m.info.Uses[aid] == gv {
+						written = true
+					}
+				}
+			}
+			return true
+		})
+	}
+	if lit == nil || written {
+		return nil
+	}
+	tag := strings.TrimSpace(strings.ReplaceAll(" "+types.ExprString(idx.Index)+" ", pv.Name(), "$"))
+	t := &mcpTable{fn: fn, tag: tag, trueSet: map[string]bool{}, roles: map[string]string{}, pos: fd.Pos()}
+	t.obj, _ = fn.Object().(*types.Func)
+	nres := fn.Signature.Results().Len()
+	for _, e := range lit.Elts {
+		kv, ok := e.(*ast.KeyValueExpr)
+		if !ok {
+			return nil
+		}
+		key, ok := m.constString(kv.Key)
+		if !ok {
+			return nil
+		}
+		rec, ok := ast.Unparen(kv.Value).(*ast.CompositeLit)
+		if !ok {
+			return nil
+		}
+		var val ast.Expr
+		for _, fe := range rec.Elts {
+			fkv, ok := fe.(*ast.KeyValueExpr)
+			if !ok {
+				return nil // positional record: not read
+			}
+			if id, ok := fkv.Key.(*ast.Ident); ok && id.Name == field {
+				val = fkv.Value
+			}
+		}
+		switch nres {
+		case 1:
+			if id, ok := val.(*ast.Ident); ok && id.Name == "true" {
+				t.trueSet[key] = true
+			}
+		case 2:
+			// (value, present): every key of the literal is present
+			if val != nil {
+				t.roles[key] = types.ExprString(val)
+			} else {
+				t.roles[key] = "" // zero value of the field
 			}
 		}
 	}
